@@ -95,6 +95,13 @@ func runC01(res *Result, d *Driver, tier string, seed uint64) {
 		nA = 6000
 	}
 	defaults := []libseccomp.Action{0, 1, 2, 3, 4, 5, 6, 0x10003, 0x7fff0001, 0xffff0000, 0x20002}
+	// the corner of the quantifier: a policy that lists nothing (every call gets the default action), nil and empty lists
+	for _, def := range defaults {
+		if f, ok := validateOne(pol{def: def}, "empty-policy"); ok && len(f) == 0 {
+			res.Mismatch(Mismatch{Kind: "oracle", What: "a policy that lists no syscall compiles to no filter at all: nothing would be loaded and every call would run unfiltered", Input: fmt.Sprintf("allow=[] trace=[] default=%d", def), Impl: "Build returned an empty program", Oracle: "violates"})
+		}
+		validateOne(pol{allow: []string{}, trace: []string{}, def: def}, "empty-policy")
+	}
 	var lastFilter, prevFilter, prevSnap seccomp.Filter
 	var prevKey string
 	for i := 0; i < nA; i++ {
